@@ -3,8 +3,8 @@
 
 Only *data* is read here: the message-type numbers `_dispatch` compares against, the label / handler numbers
 the frame classifier of the server model mentions, the defaults of `ThreadPoolServer` (`nbThreads`,
-`requestBatchSize`), which server classes exist, and three measured facts about the live server code (see
-`poolDropSparesNewcomer`, `poolCloseUnblocksWorkers`, `acceptSurvivesTransientError`).  Everything that is control flow (the accept loop, the
+`requestBatchSize`), which server classes exist, and four measured facts about the live server code (see
+`poolDropSparesNewcomer`, `poolCloseUnblocksWorkers`, `acceptSurvivesTransientError`, `spawnFailureTurnsClientAway`).  Everything that is control flow (the accept loop, the
 try/finally of `_authenticate_and_serve_client`, the pool's poller / worker catch-alls, `close()`) is modelled
 by hand in lean/RpycModel/Srv/Server.lean and tied to the code behaviourally by the C16 / C17 correspondence
 runs against the real servers, so that harmless rewrites of the code are not flagged.
@@ -170,6 +170,64 @@ def _accept_survives_transient_error(server):
     return all(out)
 
 
+def _spawn_failure_turns_client_away(server):
+    """the live `Server.accept` on a listener stand-in that hands out one stand-in socket, with `_accept_method` raising what
+    a failed `spawn()` / `os.fork()` raises: true iff accept() comes back normally, the socket was closed and is no longer in
+    `server.clients`"""
+    import logging
+    import rpyc
+    quiet = logging.getLogger("rpycverif.gen.silent")
+    if not quiet.handlers:
+        quiet.addHandler(logging.NullHandler())
+    quiet.propagate = False
+    out = []
+    for exc in (RuntimeError("can't start new thread"), OSError(11, "Resource temporarily unavailable")):
+        class Sock(object):
+            closed = False
+
+            def setblocking(self, flag):
+                pass
+
+            def fileno(self):
+                return 7
+
+            def close(self):
+                self.closed = True
+
+            def shutdown(self, how):
+                pass
+
+        class Listener(object):
+            def __init__(self):
+                self.sock = Sock()
+
+            def accept(self):
+                return self.sock, ("127.0.0.1", 1)
+
+        try:
+            srv = server.ThreadedServer(rpyc.VoidService, hostname="127.0.0.1", port=0, auto_register=False, logger=quiet)
+        except OSError as ex:
+            raise Inexpressible("cannot instantiate ThreadedServer: %s" % ex)
+        real = srv.listener
+        try:
+            srv.listener = lst = Listener()
+            srv.active = True
+
+            def failing(sock, _e=exc):
+                raise _e
+            srv._accept_method = failing
+            try:
+                srv.accept()
+                out.append(lst.sock.closed and lst.sock not in srv.clients)
+            except (RuntimeError, OSError):
+                out.append(False)
+            except Exception as ex:  # noqa
+                raise Inexpressible("Server.accept raised %r when _accept_method failed" % (ex,))
+        finally:
+            real.close()
+    return all(out)
+
+
 def gen_server():
     from rpyc.core import consts
     from rpyc.utils import server
@@ -217,6 +275,10 @@ def gen_server():
     L += ["", "/-- does the accept loop survive an error from `accept()` that is neither EINTR / EAGAIN nor the listener being",
           "gone (EMFILE, ECONNABORTED)?  Measured on the live `Server.accept` with a listener stand-in that fails once -/",
           "def acceptSurvivesTransientError : Bool := %s" % ("true" if _accept_survives_transient_error(server) else "false")]
+    L += ["", "/-- does `Server.accept` survive an `_accept_method` that cannot start a thread / child for the new client",
+          "(RuntimeError from spawn(), OSError from os.fork()), closing that client's socket and forgetting it?  Measured on",
+          "the live `Server.accept` with stand-ins -/",
+          "def spawnFailureTurnsClientAway : Bool := %s" % ("true" if _spawn_failure_turns_client_away(server) else "false")]
     L += ["", "end Rpyc.Gen.Srv", ""]
     return "\n".join(L)
 
